@@ -569,9 +569,10 @@ func (in *interp) stmt(s ast.Stmt) ctl {
 						if kv == s.Key {
 							nm = "key"
 						}
-						in.fr().env[obj] = &Val{Kind: vSym, Str: fmt.Sprintf("%s-of(%s)", nm, xs), Path: []PathElem{{Obj: obj, Str: id.Name}}, Type: obj.Type()}
+						label := fmt.Sprintf("%s-of(%s)#%s", nm, xs, id.Name)
+						in.fr().env[obj] = &Val{Kind: vSym, Str: label, Path: []PathElem{{Obj: obj, Str: id.Name}}, Type: obj.Type()}
 						if isIntType(obj.Type()) {
-							in.fr().env[obj] = in.atomVal(fmt.Sprintf("%s-of(%s)", nm, xs), []PathElem{{Obj: obj, Str: id.Name}}, kv, obj.Type())
+							in.fr().env[obj] = in.atomVal(label, []PathElem{{Obj: obj, Str: id.Name}}, kv, obj.Type())
 						}
 					}
 				}
